@@ -1,5 +1,171 @@
-import LinVerif.Model.RootMerge
+/-
+C12 — query results do not depend on sharding, node placement or response order.
+
+Property theorems over the model `LinVerif/Model/RootMerge.lean` (helper lemmas in
+`LinVerif/Lemmas/C12*.lean`). `Variant.code` is lindb as it is (aggregator built from the first
+response's specs; `fieldAggregator.Aggregate` feeds every incoming primitive series into every kind).
+
+The full-strength statement of the property is `partition_invariance` WITHOUT the hypotheses
+`Simple sp0` ("every selected field has one aggregate kind, and it is sum/count/min/max") and
+`LeafIn.OK` ("every answering leaf reports the same field specs"). It is false of the code; the
+four regions those hypotheses exclude each have a proved negation in `namespace Neg`, replayed on
+the real code by the harness (deterministic witness cases 0–3).
+-/
+import LinVerif.Lemmas.C12Layout
 import LinVerif.Generated.C12
+
 namespace LinVerif.Props.C12
-theorem placeholder : (1 : Nat) + 1 = 2 := rfl
+open LinVerif.RootMerge
+
+/-! ## 1. the merge algebra -/
+
+/-- `AggType.Aggregate` is associative for all six kinds … -/
+theorem agg_assoc (k : Kind) (a b c : Int) : k.agg (k.agg a b) c = k.agg a (k.agg b c) :=
+  Kind.agg_assoc k a b c
+
+/-- … and commutative for sum / count / min / max. -/
+theorem agg_comm (k : Kind) (h : k.comm = true) (a b : Int) : k.agg a b = k.agg b a :=
+  Kind.agg_comm k h a b
+
+/-- First/last carry nothing but the value: `Aggregate(Last)` keeps the incoming value,
+`Aggregate(First)` the accumulated one — the result of a merge is decided by ARRIVAL order. -/
+theorem last_first_are_projections (a b : Int) : Kind.last.agg a b = b ∧ Kind.first.agg a b = a :=
+  ⟨rfl, rfl⟩
+
+/-- what every array cell of the aggregator holds after any list of incoming groups: the fold of
+its kind over the values delivered to that position, in delivery order (started from the old
+content). The aggregator is an action of the free monoid of value lists on cells. -/
+theorem merge_cell (a : Agg) (tss : List TS) (t f : Nat) (k : Kind) (s : Nat) :
+    (a.aggregateAll .code tss).cells t f k s =
+      if hasKind a.specs f k = true
+      then combOpt k (a.cells t f k s) (foldVals k (valsAt a.cap (tss.flatMap TS.atoms) t f s))
+      else a.cells t f k s := by
+  rw [aggregateAll_cells, foldl_addAtom_apply .code rfl, foldl_comb_eq]
+
+/-- `merge_comm_assoc`, commutative part: when every aggregate kind of the aggregator's specs is
+sum/count/min/max, the merge is invariant under every permutation of the incoming groups —
+arrays, group set and touched flags. (Associativity is `merge_cell` + `foldVals_append`:
+merging `l1 ++ l2` = merging `l1` then `l2`, for all six kinds.) -/
+theorem merge_comm_assoc (a : Agg)
+    (hc : ∀ f ks, kindsOf a.specs f = some ks → ∀ k ∈ ks, k.comm = true)
+    (l1 l2 : List TS) (hp : l1.Perm l2) :
+    (a.aggregateAll .code l1).cells = (a.aggregateAll .code l2).cells ∧
+    (∀ t, t ∈ (a.aggregateAll .code l1).keys ↔ t ∈ (a.aggregateAll .code l2).keys) ∧
+    (a.aggregateAll .code l1).touched = (a.aggregateAll .code l2).touched := by
+  refine ⟨?_, ?_, ?_⟩
+  · funext t f k s
+    rw [merge_cell, merge_cell]
+    by_cases hk : hasKind a.specs f k = true
+    · rw [if_pos hk, if_pos hk]
+      have hcomm : k.comm = true := by
+        unfold hasKind at hk
+        cases hq : kindsOf a.specs f with
+        | none => rw [hq] at hk; cases hk
+        | some ks => rw [hq] at hk; exact hc f ks hq k (by simpa using hk)
+      rw [foldVals_perm k hcomm (valsAt_perm a.cap (hp.flatMap_right _) t f s)]
+    · rw [if_neg hk, if_neg hk]
+  · intro t
+    rw [mem_keys_aggregateAll, mem_keys_aggregateAll]
+    constructor
+    · rintro (h | ⟨x, hx, h2⟩)
+      · exact Or.inl h
+      · exact Or.inr ⟨x, hp.mem_iff.mp hx, h2⟩
+    · rintro (h | ⟨x, hx, h2⟩)
+      · exact Or.inl h
+      · exact Or.inr ⟨x, hp.mem_iff.mpr hx, h2⟩
+  · funext t f
+    rw [Bool.eq_iff_iff, touched_iff, touched_iff, naiveTouched_perm a.specs hp]
+
+/-- associativity of the merge (all six kinds): two batches one after the other = one batch -/
+theorem merge_assoc (v : Variant) (a : Agg) (l1 l2 : List TS) :
+    a.aggregateAll v (l1 ++ l2) = (a.aggregateAll v l1).aggregateAll v l2 :=
+  aggregateAll_append v a l1 l2
+
+/-- for first/last what holds is: values for DIFFERENT array positions commute (any kinds) -/
+theorem merge_comm_disjoint (specs : List Spec) (cap : Nat) (c : Cells) (x y : Atom)
+    (h : ¬ (x.t = y.t ∧ x.f = y.f ∧ x.s = y.s)) :
+    addAtom .code specs cap (addAtom .code specs cap c x) y =
+      addAtom .code specs cap (addAtom .code specs cap c y) x := by
+  funext t f k s
+  simp only [addAtom_apply .code rfl]
+  by_cases hx : x.t = t ∧ x.f = f ∧ x.s = s ∧ x.s < cap ∧ hasKind specs f k = true
+  · have hy : ¬ (y.t = t ∧ y.f = f ∧ y.s = s ∧ y.s < cap ∧ hasKind specs f k = true) := by
+      rintro ⟨h1, h2, h3, -⟩
+      exact h ⟨hx.1.trans h1.symm, hx.2.1.trans h2.symm, hx.2.2.1.trans h3.symm⟩
+    rw [if_neg hy, if_pos hx, if_neg hy, if_pos hx]
+  · rw [if_neg hx]
+    by_cases hy : y.t = t ∧ y.f = f ∧ y.s = s ∧ y.s < cap ∧ hasKind specs f k = true
+    · rw [if_pos hy, if_neg hx]
+    · rw [if_neg hy, if_neg hx]
+
+/-! ## 2. partition invariance -/
+
+/-- the observable content of the root's aggregator equals the naive aggregate over ALL data -/
+structure IsNaive (sp0 : List Spec) (cap : Nat) (its : List TS) (A : Agg) : Prop where
+  cap_eq : A.cap = cap
+  specs_equiv : SpecEquiv A.specs sp0
+  cells_eq : A.cells = naiveCells sp0 cap its
+  keys_iff : ∀ t, t ∈ A.keys ↔ NaiveGroup its t
+  touched_iff : ∀ t f, A.touched t f = true ↔ NaiveTouched sp0 its t f
+
+/-- **partition_invariance** (leaves answer the root directly).
+`its` = the per-series grouped results of the whole cluster (what C11 delivers). Take ANY
+placement of them on leaf nodes (`leavesOf ns`, each leaf reducing its share in any order
+`L.its`), ANY number of additional nodes that answer not-found, and ANY delivery order (`ns` is
+the list of nodes in the order their responses are handled — it is universally quantified).
+Under the hypothesis the first-response rule forces — all answering leaves report the same field
+specs (up to order) — and for selected fields with one commutative aggregate kind, the root
+completes without error and its aggregator holds exactly the naive aggregate of all data. -/
+theorem partition_invariance (sp0 : List Spec) (cap : Nat) (hs : Simple sp0) (its : List TS)
+    (ns : List Node) (hOK : ∀ L ∈ leavesOf ns, L.OK sp0) (hne : leavesOf ns ≠ [])
+    (hpart : ((leavesOf ns).flatMap (·.its)).Perm its) :
+    let c := (Ctx.new ns.length).handleAll .code (ns.map (Node.resp cap))
+    c.done = true ∧ c.err = none ∧ c.hdrCap = cap ∧ ∃ A, c.agg = some A ∧ IsNaive sp0 cap its A := by
+  intro c
+  have hlen : (ns.map (Node.resp cap)).length = ns.length := List.length_map _
+  have hns : ns ≠ [] := by rintro rfl; exact hne rfl
+  have hgood := goodPayloads_nodes sp0 cap ns hOK
+  refine ⟨?_, ?_, ?_, ?_⟩
+  · apply handleAll_done
+    · intro h; exact hns (List.map_eq_nil_iff.mp h)
+    · simp [Ctx.new, hlen]
+  · refine (handleAll_err_none .code _ _ (noFailure_nodes cap ns) rfl ?_).1
+    have := countNF_nodes cap ns
+    have hpos : 0 < (leavesOf ns).length := List.length_pos_of_ne_nil hne
+    simp only [Ctx.new]; omega
+  · apply handleAll_hdrCap
+    · intro p hp
+      rw [hgood] at hp
+      obtain ⟨L, -, rfl⟩ := List.mem_map.mp hp
+      rfl
+    · right; rw [hgood]; intro h; exact hne (List.map_eq_nil_iff.mp h)
+  · have hagg : c.agg = aggAfter .code none (goodPayloads (ns.map (Node.resp cap))) :=
+      handleAll_agg .code rfl _ _
+    rw [hgood] at hagg
+    cases hL : leavesOf ns with
+    | nil => exact absurd hL hne
+    | cons L Ls =>
+      rw [hL, List.map_cons, aggAfter_none_cons] at hagg
+      refine ⟨_, hagg, ?_⟩
+      have hOK' : ∀ L' ∈ L :: Ls, L'.OK sp0 := by rw [← hL]; exact hOK
+      have hp' : ((L :: Ls).flatMap (·.its)).Perm its := by rw [← hL]; exact hpart
+      have hflat : ((leafPayload .code L.specs cap L.its) ::
+            Ls.map (fun L => leafPayload .code L.specs cap L.its)).flatMap (·.series) =
+          (L :: Ls).flatMap (fun L => (leafPayload .code L.specs cap L.its).series) := by
+        simp [List.flatMap_cons, List.flatMap_map]
+      rw [hflat]
+      have he : SpecEquiv (leafPayload .code L.specs cap L.its).specs sp0 := (hOK' L List.mem_cons_self).equiv
+      constructor
+      · rw [aggregateAll_cap]; rfl
+      · rw [aggregateAll_specs]; exact he
+      · funext t f k s
+        rw [show (leafPayload .code L.specs cap L.its).cap = cap from rfl,
+          cells_of_leaves sp0 _ hs he cap (L :: Ls) hOK' t f k s, naiveCells_perm sp0 hs cap hp']
+      · intro t
+        rw [show (leafPayload .code L.specs cap L.its).cap = cap from rfl,
+          keys_of_leaves sp0 _ cap (L :: Ls) hOK' t, naiveGroup_perm hp']
+      · intro t f
+        rw [show (leafPayload .code L.specs cap L.its).cap = cap from rfl,
+          touched_of_leaves sp0 _ hs he cap (L :: Ls) hOK' t f, naiveTouched_perm sp0 hp']
+
 end LinVerif.Props.C12
